@@ -73,7 +73,14 @@ pub fn gen_world(rng: &mut Rng, p: &Profile) -> (WorldCfg, u8) {
         // half of the adversarial worlds contain a whole family whose pair keys collide when
         // ids are concatenated without a delimiter: {ab,c} vs {a,bc}; {a,ab} vs {aa,b}
         if nd >= 4 && rng.chance(50, 100) {
-            let fam: [&str; 4] = *rng.pick(&[["ab", "c", "a", "bc"], ["a", "ab", "aa", "b"], ["u", "ua", "uu", "a"]]);
+            let fam: [&str; 4] = *rng.pick(&[
+                ["ab", "c", "a", "bc"],
+                ["a", "ab", "aa", "b"],
+                ["u", "ua", "uu", "a"],
+                // overlapping collisions: {ab, aba} and {aba, ba} share a member and a key
+                ["ab", "aba", "ba", "b"],
+                ["ausd", "ausda", "usda", "u"],
+            ]);
             denoms = fam.iter().map(|s| s.to_string()).collect();
         }
         while denoms.len() < nd {
